@@ -1,5 +1,5 @@
 """C17: specs/Rendezvous.tla bound to pkg/rendezvous (rotation cache, pure functions)."""
-import json, os, re
+import json, os, re, shutil
 from concurrent.futures import ThreadPoolExecutor
 import vf
 
@@ -14,6 +14,15 @@ DRV_PURE = "^TestVerifRendezvousPure$"
 POOL = 4
 EPOCH = 1700000000
 DAY = 86400
+
+
+def _overlay(ctx, name, pkgs, replace=None):
+    """ctx.overlay always writes <scratch>/overlay/overlay.json: keep a private copy per use, made
+    before any thread starts"""
+    p = ctx.overlay(pkgs, replace=replace)
+    q = os.path.join(os.path.dirname(p), "overlay_%s.json" % name)
+    shutil.copy(p, q)
+    return q
 
 
 def _par(jobs):
@@ -233,9 +242,9 @@ def _validate_groups(ctx, groups, name, max_rejects=3, timeout=1500):
     return good, rejects
 
 
-def _validate_abs(ctx, a, groups, impl_hint):
+def _validate_abs(ctx, a, groups, impl_hint, key=None):
     """monitor (verdict) + conformance with the expiry predicate that matches the tree"""
-    name = "abs_" + a.name
+    name = "abs_" + (key or a.name)
     acc, rejects = _validate_groups(ctx, groups, name)
     impl_ok = None
     if not rejects:
@@ -281,10 +290,12 @@ def _abstract_outcomes(evs):
 def run(ctx, replay=None):
     quick = ctx.tier == "quick"
     rep = rewritten_sources(ctx)
-    ov_virtual = ctx.overlay({PKG: FILES}, replace=rep)
+    ov_virtual = _overlay(ctx, "virtual", {PKG: FILES}, replace=rep)
+    ov_real = _overlay(ctx, "real", {PKG: FILES})          # no source replaced: real clock
+    ov_mm = _overlay(ctx, "marshaler", {".": ["vf_marshaler_verif_test.go"], PKG: [SHIM]}, replace=rep)
     if replay:
         rp = json.load(open(replay))
-        return _replay(ctx, rp, ov_virtual)
+        return _replay(ctx, rp, ov_virtual, ov_mm)
 
     off_sub = [(0, 0), (0, 1), (599, 999999999), (600, 0)]
     # Abs(name, ticks per period, seconds per tick, tick increments, number of ticks);
@@ -358,15 +369,18 @@ def run(ctx, replay=None):
         raise vf.Infra("driver did not record every script")
     byid = {s["id"]: s for s in scripts}
     impl_hint = [None]
+    # one TLC run per abstract configuration (quick) or per (configuration, offset) group (thorough:
+    # large traces are validated side by side)
     by_abs = {}
     for gid, a, off, ids in groups:
-        by_abs.setdefault(a.name, (a, []))[1].append(((-1 - gid, blocks[-1 - gid]), [(i, blocks[i]) for i in ids]))
-    vjobs = [lambda a=a, gl=gl: _validate_abs(ctx, a, gl, impl_hint) for a, gl in by_abs.values()]
+        key = a.name if quick else "%s_g%d" % (a.name, gid)
+        by_abs.setdefault(key, (a, []))[1].append(((-1 - gid, blocks[-1 - gid]), [(i, blocks[i]) for i in ids]))
+    vjobs = [lambda a=a, gl=gl, key=key: _validate_abs(ctx, a, gl, impl_hint, key) for key, (a, gl) in by_abs.items()]
     pure_ev = [{"ev": "reset", "id": PURE_ID}] + blocks[PURE_ID]
     # real-time twins and the pure-function trace are handled while TLC validates the replays
     with ThreadPoolExecutor(max_workers=3) as side:
-        rt = side.submit(lambda: _realtime(ctx, scripts, blocks, 16 if quick else 32))
-        mm = side.submit(lambda: _marshaler(ctx, rep, scripts, 350 if quick else 4000))
+        rt = side.submit(lambda: _realtime(ctx, ov_real, scripts, blocks, 16 if quick else 32))
+        mm = side.submit(lambda: _marshaler(ctx, ov_mm, scripts, 350 if quick else 4000))
         pu = side.submit(lambda: _pure_validate(ctx, pure_ev))
         # the first configuration alone fixes the matching predicate, the others then try it first
         results = [vjobs[0]()] + _par(vjobs[1:])
@@ -434,10 +448,9 @@ def _pure(ctx, ov, n):
 DRV_MM = "^TestVerifMarshalerReplay$"
 
 
-def _marshaler(ctx, rep, scripts, n):
+def _marshaler(ctx, ov, scripts, n):
     """a sample of the same histories through two OrbitDBMessageMarshalers (root package, in-package
     driver, same virtual clock): resolve = Marshal, accept = Unmarshal"""
-    ov = ctx.overlay({".": ["vf_marshaler_verif_test.go"], PKG: [SHIM]}, replace=rep)
     bygid = {}
     for s in scripts:
         bygid.setdefault(s["cfg"]["gid"], []).append(s)
@@ -469,7 +482,7 @@ def _marshaler(ctx, rep, scripts, n):
                       {"script": byid[rj["id"]], "marshaler": True, "observed": rj["events"], "rejected_line": line, "step": rj["at"]})
 
 
-def _realtime(ctx, scripts, blocks, n):
+def _realtime(ctx, ov_real, scripts, blocks, n):
     """a handful of histories against the UNMODIFIED package in real time (1 s ticks, actions
     at +500 ms); each must look like its virtual-clock twin.  A disagreement is re-run once and
     then reported as an infrastructure problem of the clock substitution, never as a violation."""
@@ -483,7 +496,6 @@ def _realtime(ctx, scripts, blocks, n):
     for s in pick:
         c = dict(s["cfg"], realtime=True)
         rts.append({"id": s["id"], "cfg": c, "steps": s["steps"]})
-    ov_real = ctx.overlay({PKG: FILES})          # no source replaced: real clock
     todo, attempts, agree = rts, 0, 0
     while todo and attempts < 2:
         attempts += 1
@@ -502,7 +514,7 @@ def _realtime(ctx, scripts, blocks, n):
                        "the clock substitution (or the machine's timing) is not trustworthy" % todo[0]["id"])
 
 
-def _replay(ctx, rp, ov):
+def _replay(ctx, rp, ov, ov_mm):
     if "pure" in rp or "universe" in rp:
         _pure(ctx, ov, 3000)
         if "universe" in rp:
@@ -514,7 +526,7 @@ def _replay(ctx, rp, ov):
         return _finish(ctx)
     sc = rp["script"]
     if rp.get("marshaler"):
-        _marshaler(ctx, rewritten_sources(ctx), [sc], 1)
+        _marshaler(ctx, ov_mm, [sc], 1)
         return _finish(ctx)
     events, _ = vf.run_driver(ctx, PKG, DRV, ov, [sc], "virtual")
     acc, rejects = vf.validate_blocks(ctx, MON, events, "replay", timeout=600)
